@@ -112,8 +112,14 @@ def run_case(case):
     dd = [f"d{j}" for j in range(n_dd)]
     ct = [f"w{j}" for j in range(n_ct)]
     spec = {}
+    big_disc = i % 5 in (1, 2)  # many categories, labels handed over as int8 / uint8 (see label_dtype)
     for v in sp + dd:
-        spec[v] = {"kind": "disc", "n": int(rng.integers(2, 5))}
+        spec[v] = {"kind": "disc", "n": int(rng.integers(2, 5)) if not (big_disc and v in dd) else int(rng.integers(12, 21))}
+    if big_disc and n_dd < 2:
+        dd = ["d0", "d1"]
+        n_dd = 2
+        for v in dd:
+            spec[v] = {"kind": "disc", "n": int(rng.integers(12, 21))}
     sizes = rng.permutation([2, 3, 4, 5, 6, 7])[: n_ct]
     for v, n in zip(ct, sizes):
         if rng.random() < 0.35:
@@ -249,8 +255,12 @@ def run_case(case):
             k0 = int(np.argmax(dev))
             res["violations"].append({"key": "value_mismatch", "what": f"{what}: point { {v: float(pts[v][k0]) for v in names} } -> {got[k0]!r}, expected (lookup + multilinear interpolation) {exp[k0]!r}; space restricted={sp} discrete={dd} continuous={[(v, spec[v]['kind'], spec[v]['n']) for v in ct]} prefix='{prefix}'"})
 
+    label_dtype = [None, np.int8, np.uint8, np.int16, np.int32][i % 5] if (sp or dd) else None
+    if label_dtype is not None:
+        add("narrow_label_dtype_cases")
+
     def mk(pts_):
-        return [jnp.asarray(pts_[v]) for v in names]
+        return [jnp.asarray(np.asarray(pts_[v]).astype(label_dtype)) if (label_dtype is not None and v in sp + dd) else jnp.asarray(pts_[v]) for v in names]
 
     try:
         # scalar calls (first 6 points)
